@@ -6,7 +6,7 @@
 
 use super::{Scheduler, executor::build_evm, ordered_commit::CommittedPrefixEnd};
 use crate::{
-    GrevmError, InvalidTransaction, TxExecutionOutcome, TxId,
+    GrevmError, TxExecutionOutcome, TxId,
     beneficiary::BeneficiaryMode,
     delegated_safety::{GrevmHandler, ReserveMode},
 };
@@ -86,7 +86,6 @@ where
             // The planner describes the full block, so replay retains global TxIds rather than
             // rebasing future-cost lookups at `start`.
             self.execute_sequential_suffix(start, |txid, tx| {
-                reject_nonce_overflow(evm.db_mut(), self.cfg.disable_nonce_check, tx)?;
                 evm.ctx.set_tx(tx.clone());
                 let reserve_mode = ReserveMode::from_planner(txid, self.reserve_planner.as_deref());
                 let output =
@@ -143,25 +142,10 @@ where
     }
 }
 
-fn reject_nonce_overflow<DB: DatabaseRef>(
-    db: &DB,
-    disable_nonce_check: bool,
-    tx: &TxEnv,
-) -> Result<(), EVMError<DB::Error>> {
-    // revm increments the sender nonce with saturating arithmetic. Detect MAX explicitly so
-    // sequential recovery preserves the protocol's nonce-overflow invalid classification.
-    if !disable_nonce_check &&
-        tx.nonce == u64::MAX &&
-        db.basic_ref(tx.caller)?.map_or(0, |info| info.nonce) == u64::MAX
-    {
-        return Err(InvalidTransaction::NonceOverflowInTransaction.into());
-    }
-    Ok(())
-}
-
 #[cfg(test)]
 mod tests {
     use super::*;
+    use crate::InvalidTransaction;
     use crate::ParallelState;
     use revm_context::{
         BlockEnv, CfgEnv,
